@@ -421,7 +421,14 @@ class QvmCpu:
         if not self.error_handler_active and \
            self.trap_target is not None:
             if self.trap_target == 'next':
-                self._exec_errresn()
+                try:
+                    self._exec_errresn()
+                except Trapped as e:
+                    # cannot skip the statement (e.g. the module has no
+                    # debug info): report that as an ordinary trap
+                    # instead of letting the exception escape tick()
+                    self.trap_target = None
+                    self._trap(e.trap_code, **e.trap_kwargs)
             else:
                 self.pc = self.trap_target
                 self.error_handler_active = True
